@@ -3,7 +3,7 @@ import ast
 
 from ..model import AnalysisError, Model, walk_no_nested, norm_stmt, names_in
 from ..callgraph import CallGraph
-from .. import sem, flow
+from .. import excmap, sem, flow
 
 EXPLANATION = (
     'Argument: a strict prefix drives the decoder along the path of the full encoding until it asks for bits beyond the cut; '
@@ -218,25 +218,20 @@ def check(ctx):
                           stmt='short-tag test missing')
     for fn in ('skip_tag', 'decode_length'):
         f = model.func(BER, fn)
-        # every subscript of the buffer parameter with a non-slice index lies in try/except IndexError -> OutOfByteDataError
+        # every subscript of the buffer parameter with a non-slice index (in the function and in the helpers it hands the buffer to)
+        # lies in try/except IndexError -> OutOfByteDataError
         buf = flow.param_names(f)[0]
-        for n in walk_no_nested(f):
-            if isinstance(n, ast.Subscript) and isinstance(n.value, ast.Name) and n.value.id == buf and not isinstance(n.slice, ast.Slice):
-                ok = False
-                for t in flow.enclosing_try_handlers(n, stop=f):
-                    for h in t.handlers:
-                        if flow.handler_catches(h, ('IndexError', 'Exception', 'LookupError')) and \
-                                any(isinstance(r, ast.Raise) and 'OutOfByteDataError' in ast.unparse(r) for r in ast.walk(h)):
-                            ok = True
-                ctx.instance('C16.R4', '%s %s' % (Model.qual(f), ast.unparse(n)), 'IndexError mapped' if ok else 'VIOLATION', node=n, file=BER)
-                if not ok:
-                    ctx.violation('C16.R4', BER, n, Model.qual(f), 'buffer index %s outside try/except IndexError -> OutOfByteDataError: a short prefix raises IndexError' % ast.unparse(n))
+        for g, n, ok in excmap.index_sites(f, buf):
+            ctx.instance('C16.R4', '%s %s' % (Model.qual(g), ast.unparse(n)), 'IndexError mapped' if ok else 'VIOLATION', node=n, file=BER)
+            if not ok:
+                ctx.violation('C16.R4', BER, n, Model.qual(g), 'buffer index %s outside try/except IndexError -> OutOfByteDataError: a short prefix raises IndexError' % ast.unparse(n))
     # long-form length octets: taken by slicing and compared by count
     f = model.func(BER, 'decode_length')
     # some path raises OutOfByteDataError because the slice holding the long-form length octets is shorter than announced
-    dps = sem.paths(f) or []
-    ok = any(p.outcome[0] == 'raise' and p.outcome[1] == 'OutOfByteDataError' and p.conds and 'len(' in p.conds[-1][0] and ' == 0' in p.conds[-1][0]
-             and not p.conds[-1][1] for p in dps)
+    ok = False
+    for g, dps in excmap.family_paths(f, flow.param_names(f)[0]):
+        ok = ok or any(p.outcome[0] == 'raise' and p.outcome[1] == 'OutOfByteDataError' and p.conds and 'len(' in p.conds[-1][0] and ' == 0' in p.conds[-1][0]
+                       and not p.conds[-1][1] for p in (dps or []))
     ctx.instance('C16.R4', '%s long-form octet count test' % Model.qual(f), 'ok' if ok else 'VIOLATION', node=f, file=BER)
     if not ok:
         ctx.violation('C16.R4', BER, f, Model.qual(f), 'missing length octets are no longer detected (int() of a short slice gives a wrong length)', stmt='length octet count test missing')
@@ -270,7 +265,12 @@ def check(ctx):
                 ctx.instance('C16.R5', '%s raise %s' % (Model.qual(f), e.id), 're-raise', nontrivial=False, node=n, file=rel)
                 continue
             fn = e.func if isinstance(e, ast.Call) else e
-            r = f._mod.resolve(fn) if isinstance(fn, (ast.Name, ast.Attribute)) else None
+            resolve_in = f._mod
+            if isinstance(e, ast.Call):
+                ef = sem.error_factory(f, fn)
+                if ef is not None:
+                    fn, resolve_in = ef[0], ef[1]._mod        # raise <helper>(..): the class the helper constructs
+            r = resolve_in.resolve(fn) if isinstance(fn, (ast.Name, ast.Attribute)) else None
             name = ast.unparse(fn)
             ok = False
             if hasattr(r, 'mro'):
